@@ -8,19 +8,22 @@
 #ifndef PF
 #define PF 13
 #endif
+#include "smallf.h"
 extern const uint64_t *SM2_Z256_MODP_MONT_ONE;
-uint64_t smallp_inv(uint64_t a);
 static const uint64_t MONT_ONE[4] = { 2 % PF, 0, 0, 0 };
-typedef unsigned __CPROVER_bitvector[20] sv;    /* narrow arithmetic: every value is < PF, products < 2^20 */
+typedef sf sv;                               /* table-driven F_PF arithmetic (include/smallf.h) */
 typedef struct { int inf; sv x, y; } AFF;
-static sv md(sv a) { return a % PF; }
-static sv sub(sv a, sv b) { return (a + PF - b % PF) % PF; }
-static sv inv(sv a) { return (sv)smallp_inv((uint64_t)a); }
+#define mul sf_mul
+#define add sf_add
+#define sub sf_sub
+#define inv sf_inv
+static sv dbl(sv a) { return sf_add(a, a); }
+static sv tri(sv a) { return sf_add(sf_add(a, a), a); }
 static sv g_b;                               /* curve: y^2 = x^3 - 3x + b */
-static int on_curve(sv x, sv y) { return md(y * y) == md(md(x * x) * x + 3 * (PF - x) + g_b); }
+static int on_curve(sv x, sv y) { return mul(y, y) == add(sub(mul(mul(x, x), x), tri(x)), g_b); }
 static AFF any_point(void)
 {
-	AFF P; P.inf = nondet_bool(); P.x = (sv)nondet_u8(); P.y = (sv)nondet_u8();
+	AFF P; P.inf = nondet_bool(); P.x = nondet_u8(); P.y = nondet_u8();
 	ASSUME(P.x < PF && P.y < PF);
 	if (!P.inf) { ASSUME(on_curve(P.x, P.y)); ASSUME(P.y != 0); }   /* no points of order 2: the SM2 group has prime order */
 	return P;
@@ -33,21 +36,21 @@ static int g_njac;
 static void to_jac(SM2_Z256_POINT *J, AFF P)
 {
 	memset(J, 0, sizeof(*J));
-	sv z = (sv)nondet_u8(); ASSUME(z >= 1 && z < PF);
+	sv z = nondet_u8(); ASSUME(z >= 1 && z < PF);
 	if (g_njac++ == 0 && Z1FIX) z = Z1FIX;
-	if (P.inf) { sv a = (sv)nondet_u8(), c = (sv)nondet_u8(); ASSUME(a < PF && c < PF); J->X[0] = (uint64_t)a; J->Y[0] = (uint64_t)c; J->Z[0] = 0; return; }
-	J->X[0] = (uint64_t)md(2 * md(P.x * md(z * z)));
-	J->Y[0] = (uint64_t)md(2 * md(P.y * md(md(z * z) * z)));
-	J->Z[0] = (uint64_t)md(2 * z);
+	if (P.inf) { sv a = nondet_u8(), c = nondet_u8(); ASSUME(a < PF && c < PF); J->X[0] = a; J->Y[0] = c; J->Z[0] = 0; return; }
+	J->X[0] = dbl(mul(P.x, mul(z, z)));
+	J->Y[0] = dbl(mul(P.y, mul(mul(z, z), z)));
+	J->Z[0] = dbl(z);
 }
 static AFF from_jac(const SM2_Z256_POINT *J)
 {
-	AFF P; sv inv2 = (PF + 1) / 2;
+	AFF P;
 	CHECK(J->X[1] == 0 && J->X[2] == 0 && J->X[3] == 0 && J->Y[1] == 0 && J->Z[1] == 0 && J->X[0] < PF && J->Y[0] < PF && J->Z[0] < PF, "result coordinates reduced");
-	sv Z = md((sv)J->Z[0] * inv2);
+	sv Z = sf_haf((sv)J->Z[0]);
 	if (Z == 0) { P.inf = 1; P.x = P.y = 0; return P; }
-	sv zi = inv(Z), X = md((sv)J->X[0] * inv2), Y = md((sv)J->Y[0] * inv2);
-	P.inf = 0; P.x = md(X * md(zi * zi)); P.y = md(Y * md(md(zi * zi) * zi));
+	sv zi = inv(Z), X = sf_haf((sv)J->X[0]), Y = sf_haf((sv)J->Y[0]);
+	P.inf = 0; P.x = mul(X, mul(zi, zi)); P.y = mul(Y, mul(mul(zi, zi), zi));
 	return P;
 }
 static AFF ref_add(AFF P, AFF Q)
@@ -58,10 +61,10 @@ static AFF ref_add(AFF P, AFF Q)
 	sv lam;
 	if (P.x == Q.x) {
 		if (P.y != Q.y) { R.inf = 1; return R; }
-		lam = md(md(3 * md(P.x * P.x) + 3 * (PF - 1)) * inv(md(2 * P.y)));     /* (3x^2 - 3) / 2y */
-	} else lam = md(sub(Q.y, P.y) * inv(sub(Q.x, P.x)));
-	R.x = sub(sub(md(lam * lam), P.x), Q.x);
-	R.y = sub(md(lam * sub(P.x, R.x)), P.y);
+		lam = mul(sub(tri(mul(P.x, P.x)), 3 % PF), inv(dbl(P.y)));     /* (3x^2 - 3) / 2y */
+	} else lam = mul(sub(Q.y, P.y), inv(sub(Q.x, P.x)));
+	R.x = sub(sub(mul(lam, lam), P.x), Q.x);
+	R.y = sub(mul(lam, sub(P.x, R.x)), P.y);
 	return R;
 }
 static void same(AFF A, AFF B, const char *what)
@@ -72,8 +75,8 @@ static void same(AFF A, AFF B, const char *what)
 static void setup(void)
 {
 	SM2_Z256_MODP_MONT_ONE = MONT_ONE;
-	g_b = (sv)nondet_u8(); ASSUME(g_b < PF);
-	ASSUME(md(4 * (PF * PF * PF - 27) + 27 * md(g_b * g_b)) != 0);   /* 4a^3 + 27b^2 != 0 with a = -3: non-singular */
+	g_b = nondet_u8(); ASSUME(g_b < PF);
+	ASSUME(sf_sub(sf_mul(27 % PF, sf_mul(g_b, g_b)), 108 % PF) != 0);   /* 4a^3 + 27b^2 = 27 b^2 - 108 != 0 with a = -3: non-singular */
 }
 void h_point_add(void)
 {
@@ -116,7 +119,7 @@ void h_point_add_affine(void)
 	setup();
 	AFF P = any_point(), Q = any_point(); ASSUME(!Q.inf);
 	SM2_Z256_POINT JP, JR; to_jac(&JP, P);
-	SM2_Z256_AFFINE_POINT A; memset(&A, 0, sizeof(A)); A.x[0] = (uint64_t)md(2 * Q.x); A.y[0] = (uint64_t)md(2 * Q.y);
+	SM2_Z256_AFFINE_POINT A; memset(&A, 0, sizeof(A)); A.x[0] = dbl(Q.x); A.y[0] = dbl(Q.y);
 	sm2_z256_point_add_affine(&JR, &JP, &A);
 	same(from_jac(&JR), ref_add(P, Q), "add_affine");
 	V_REACH();
@@ -128,7 +131,7 @@ void h_get_xy(void)
 	SM2_Z256_POINT JP; to_jac(&JP, P);
 	uint64_t x[4], y[4];
 	/* the library's own infinity test additionally demands X^3 == Y^2 for Z == 0; build such representatives */
-	if (P.inf) { sv k = (sv)nondet_u8(); ASSUME(k < PF); JP.X[0] = (uint64_t)md(2 * md(k * k)); JP.Y[0] = (uint64_t)md(2 * md(md(k * k) * k)); }
+	if (P.inf) { sv k = nondet_u8(); ASSUME(k < PF); JP.X[0] = dbl(mul(k, k)); JP.Y[0] = dbl(mul(mul(k, k), k)); }
 	int ret = sm2_z256_point_get_xy(&JP, x, y);
 	CHECK((ret == 1) == !P.inf, "get_xy reports infinity exactly for Z = 0");
 	if (ret == 1) CHECK(x[0] == (uint64_t)P.x && y[0] == (uint64_t)P.y && x[1] == 0 && y[1] == 0, "affine coordinates recovered from every Jacobian representative");
